@@ -672,3 +672,93 @@ func ruleParserUniqueness(r *Run) {
 		o.Fail("-", "Unquote calls: lexer.nextToken=%d, parser package=%d", n, nParser)
 	}
 }
+
+// ruleRangeLayouts: the two layouts of a log range (`sel [r] offset? pipeline` and
+// `sel pipeline [r] offset?`) are sibling productions: every successful path through
+// parseRangeExpr parses the range, then looks for the offset modifier, and parses the pipeline
+// and then looks for unwrap. A layout that skips one of the four accepts a smaller language
+// than its sibling.
+func ruleRangeLayouts(r *Run) {
+	p := r.P
+	lq := modPath + "/" + logqlPkg
+	fn := p.Method(logqlPkg, "parser", "parseRangeExpr")
+	o := r.Ob("PV-SIB", "logql.(*parser).parseRangeExpr layouts", "both layouts of a log range (range first, pipeline first) parse [range], then test for `offset`, and parse the pipeline, then test for `unwrap`")
+	T := p.NamedType(lexerPkg, "TokenType")
+	if fn == nil || T == nil {
+		o.Fail("-", "parseRangeExpr / lexer.TokenType not found")
+		return
+	}
+	consts := enumConstants(T)
+	tokIs := func(v ssa.Value, name string) bool {
+		c, ok := constOf(v)
+		want, ok2 := consts[name]
+		return ok && ok2 && c.Kind() == want.Kind() && constant.Compare(c, token.EQL, want)
+	}
+	w := &feWalker{Fn: fn, Inline: inlineHelpers(fn), MaxPath: 20000}
+	ends := w.Run()
+	if w.Aborted {
+		o.Undecide(r.pos(fn.Pos()), "path enumeration aborted")
+		return
+	}
+	nOK := 0
+	bad := false
+	for _, e := range ends {
+		if e.Cut {
+			continue
+		}
+		if isErr, known := endReturnsError(e); !known || isErr {
+			continue
+		}
+		if _, isRet := e.Term.(*ssa.Return); !isRet {
+			continue
+		}
+		nOK++
+		closeSeq, pipeSeq := -1, -1
+		for _, c := range e.State.calls {
+			if callIs(c.Call, lq, "(*parser).consume") && len(c.Args) == 2 && c.Args[1].Known {
+				if want, ok := consts["CloseBracket"]; ok && constant.Compare(c.Args[1].C, token.EQL, want) {
+					closeSeq = c.Seq
+				}
+			}
+			if callIs(c.Call, lq, "(*parser).parsePipeline") {
+				pipeSeq = c.Seq
+			}
+		}
+		// a comparison of a token type with the given token, evaluated after `after`
+		tested := func(name string, after int) bool {
+			for i, b := range e.State.trail {
+				if i >= len(e.State.trailSeq) || e.State.trailSeq[i] < after {
+					continue
+				}
+				for _, in := range b.Instrs {
+					if bo, ok := in.(*ssa.BinOp); ok && (bo.Op == token.EQL || bo.Op == token.NEQ) && (tokIs(bo.X, name) || tokIs(bo.Y, name)) {
+						return true
+					}
+				}
+			}
+			return false
+		}
+		var missing []string
+		if closeSeq < 0 {
+			missing = append(missing, "[range]")
+		} else if !tested("Offset", closeSeq) {
+			missing = append(missing, "the test for `offset` after the range")
+		}
+		if pipeSeq < 0 {
+			missing = append(missing, "the pipeline")
+		} else if !tested("Unwrap", pipeSeq) {
+			missing = append(missing, "the test for `unwrap` after the pipeline")
+		}
+		if len(missing) > 0 {
+			bad = true
+			o.Fail(r.pos(e.Term.Pos()), "a successful path through parseRangeExpr skips %s: that layout accepts a smaller language than its sibling", strings.Join(missing, ", "))
+		}
+	}
+	if nOK < 2 {
+		bad = true
+		o.Fail(r.pos(fn.Pos()), "expected at least two successful layouts, found %d successful path(s)", nOK)
+	}
+	if !bad {
+		o.OK("%d successful path(s), each with range -> offset? and pipeline -> unwrap?", nOK).At(r.pos(fn.Pos()))
+	}
+}
